@@ -446,6 +446,13 @@ func ruleLabelIdentity(r *Run) {
 			o.Fail("-", "function/closure not found")
 		} else {
 			keyParam := cl.Params[len(cl.Params)-1]
+			for _, prm := range cl.Params {
+				if sl, ok := prm.Type().Underlying().(*types.Slice); ok {
+					if bt, ok := sl.Elem().Underlying().(*types.Basic); ok && bt.Kind() == types.Uint8 {
+						keyParam = prm // the key is the []byte parameter, wherever it stands
+					}
+				}
+			}
 			bad := false
 			var cmp *ssa.BinOp
 			allInstrs(cl, func(in ssa.Instruction) {
@@ -481,6 +488,9 @@ func ruleLabelIdentity(r *Run) {
 				allInstrs(cl, func(in ssa.Instruction) {
 					if st, ok := in.(*ssa.Store); ok {
 						_, isFree := st.Addr.(*ssa.FreeVar)
+						if prm, ok := st.Addr.(*ssa.Parameter); ok && prm.Parent() == cl && isStringType(deref(prm.Type())) {
+							isFree = true // the line's variable is handed to the handler by address
+						}
 						if !isFree && clRecv {
 							// the handler is a method of a state struct: the line is a field of its receiver
 							if _, base, ok := fieldNameOf(st.Addr); ok && base == ssa.Value(cl.Params[0]) && isStringType(st.Val.Type()) {
@@ -1018,6 +1028,25 @@ func unpackFieldHandler(fn *ssa.Function) (h *ssa.Function, recv bool) {
 			}
 			f, bound := predicateOf(c.Common().Args[1])
 			if f != nil && f.Blocks != nil && len(f.Params) >= 2 {
+				// a literal that only hands its arguments on to a named function of the package
+				if len(f.Blocks) == 1 && bound == nil {
+					var only *ssa.Call
+					n := 0
+					for _, cc := range callsIn(f) {
+						if x, ok := cc.(*ssa.Call); ok {
+							only = x
+							n++
+						}
+					}
+					if n == 1 {
+						if g := staticCallee(only); g != nil && g.Blocks != nil && pkgOfFunc(g) == pkgOfFunc(fn) {
+							rets := returnsOf(f)
+							if len(rets) == 1 && len(rets[0].Results) == 1 && rets[0].Results[0] == ssa.Value(only) {
+								return g, false
+							}
+						}
+					}
+				}
 				return f, bound != nil
 			}
 		}
